@@ -214,7 +214,9 @@ class Merger(object):
 
     def write_channel_positions(self):
         """Write the channel positions."""
-        channel_positions_l = _load_multiple_files('channel_positions.npy', self.subdirs)
+        channel_positions_l = [
+            pos.astype(np.float64)
+            for pos in _load_multiple_files('channel_positions.npy', self.subdirs)]
         x_offset = 0.
         for array in channel_positions_l:
             array[:, 0] += x_offset
